@@ -69,4 +69,20 @@ theorem gen_rebroadcast_pinned :
     Gen.handleEdgePointsUp = ["nodeID, nodeID, parentID, points"] := by
   decide
 
+/-- non-vacuity: a reachable store R → a → b with a second, deleted, edge c → b: node points of `b` are announced to b, a
+    and R but not to c; edge points also to c -/
+example :
+    let isEven : Nat → Bool := fun v => v != 4607182418800017408
+    let nt : Int → Point := fun t => { type := nodeTypeT, text := [100], time := t }
+    let st := run {} [
+      .ep [82] [] [{ type := tombstoneT, time := 1 }, nt 1],
+      .ep [97] [82] [{ type := tombstoneT, time := 2 }, nt 2],
+      .ep [99] [82] [{ type := tombstoneT, time := 3 }, nt 3],
+      .ep [98] [97] [{ type := tombstoneT, time := 4 }, nt 4],
+      .ep [98] [99] [{ type := tombstoneT, time := 5, value := 4607182418800017408 }, nt 5]]
+    Inv st ∧ st.edges.length = 5 ∧
+      ([97] ∈ pubsNode isEven st [98] ∧ [82] ∈ pubsNode isEven st [98] ∧ [99] ∉ pubsNode isEven st [98]) ∧ [99] ∈ pubsEdge st [98] := by
+  intro isEven nt st
+  exact ⟨c03_reachable _, by decide +kernel, by decide +kernel, by decide +kernel⟩
+
 end Siot.Store
